@@ -108,4 +108,104 @@ ENSURES((RET == 1 && OLD(verif_x_unknown_critical) == 0) IMPLIES verif_x_unknown
 ENSURES((RET == 1 && IS_CA_TYPE(cert_type)) IMPLIES (verif_x_bc_last_ca == 1 && verif_x_bc_last_ret == 1))
 ENSURES(RET == 1 IMPLIES *path_len_constraint >= -1)
 ;
+
+/* ------------------------------------------------------------------ chain verification (C07) */
+#ifdef CONTRACT_CHAIN
+#ifdef VERIF_CBMC
+size_t G_lookup_store; size_t G_lookup_name; unsigned G_lookup_calls; size_t G_issuer_of; size_t G_issuer_name; unsigned G_issuer_calls;
+#endif
+/* one Certificate off the front of a concatenation */
+int x509_cert_from_der(const uint8_t **a, size_t *alen, const uint8_t **in, size_t *inlen)
+REQUIRES(WR_OK(a, sizeof(*a)) && WR_OK(alen, sizeof(*alen)) && DER_RD_REQ(in, inlen))
+ASSIGNS(*a, *alen, *in, *inlen)
+ENSURES(RET == 1 || RET == 0 || RET == -1)
+ENSURES(RET == 0 IMPLIES DER_RD_SAME(in, inlen))
+ENSURES(RET == 1 IMPLIES DER_RD_ADV(in, inlen) && DER_SLICE(*a, in, inlen, 0) && *alen == DER_CONSUMED(inlen) && *alen >= 2)
+;
+/* profile check of one certificate: records its position (call number), the role it was checked for, and, at the ghost position
+   verif_c_ci, the pathLenConstraint it returned */
+int x509_cert_check(const uint8_t *cert, size_t certlen, int cert_type, int *path_len_constraint)
+REQUIRES(certlen <= (size_t)INT_MAX && RD_OK(cert, certlen) && WR_OK(path_len_constraint, sizeof(int)))
+ASSIGNS(*path_len_constraint, verif_c_chk_calls, verif_c_chk_type0, verif_c_chk_type1, verif_c_chk_nonca, verif_c_plc_ci, verif_c_chk_last, verif_c_chk_first, verif_c_chk_second)
+ENSURES(RET == 1 || RET == -1)
+ENSURES(verif_c_chk_calls == OLD(verif_c_chk_calls) + 1 && verif_c_chk_last == (size_t)cert)
+ENSURES(RET == 1 IMPLIES *path_len_constraint >= -1)
+ENSURES(OLD(verif_c_chk_calls) == 0 ? (verif_c_chk_type0 == cert_type && verif_c_chk_first == (size_t)cert) : (verif_c_chk_type0 == OLD(verif_c_chk_type0) && verif_c_chk_first == OLD(verif_c_chk_first)))
+ENSURES(OLD(verif_c_chk_calls) == 1 ? (verif_c_chk_type1 == cert_type && verif_c_chk_second == (size_t)cert) : (verif_c_chk_type1 == OLD(verif_c_chk_type1) && verif_c_chk_second == OLD(verif_c_chk_second)))
+/* sticky: some certificate after the end-entity position(s) was checked for a role other than CA */
+ENSURES(verif_c_chk_nonca == ((OLD(verif_c_chk_calls) >= CHAIN_LEAVES && cert_type != X509_cert_ca) ? 1 : OLD(verif_c_chk_nonca)))
+ENSURES(OLD(verif_c_chk_calls) == verif_c_ci ? verif_c_plc_ci == *path_len_constraint : verif_c_plc_ci == OLD(verif_c_plc_ci))
+;
+/* issuer(child) == subject(parent) and the signature of child verifies under parent's key: records that the call was made on
+   (child = the previous call's parent or the first checked certificate, parent = the certificate checked last), sticky 'bad' otherwise */
+int x509_cert_verify_by_ca_cert(const uint8_t *a, size_t alen, const uint8_t *cacert, size_t cacertlen, const char *signer_id, size_t signer_id_len)
+REQUIRES(alen <= (size_t)INT_MAX && RD_OK(a, alen) && cacertlen <= (size_t)INT_MAX && RD_OK(cacert, cacertlen))
+ASSIGNS(verif_c_vfy_calls, verif_c_vfy_bad, verif_c_vfy_prev_parent, verif_c_vfy_second)
+ENSURES(RET == 1 || RET == 0 || RET == -1)
+ENSURES(verif_c_vfy_calls == OLD(verif_c_vfy_calls) + 1 && verif_c_vfy_prev_parent == (size_t)cacert)
+/* sticky: the second end-entity certificate (TLCP encryption certificate) has been verified under an issuer */
+ENSURES(verif_c_vfy_second == (((size_t)a == verif_c_chk_second && RET == 1) ? 1 : OLD(verif_c_vfy_second)))
+ENSURES(verif_c_vfy_bad == (((size_t)cacert != verif_c_chk_last
+	|| !((size_t)a == OLD(verif_c_vfy_prev_parent) || (size_t)a == verif_c_chk_first || (CHAIN_LEAVES == 2 && (size_t)a == verif_c_chk_second))
+	|| signer_id_len != 16) ? 1 : OLD(verif_c_vfy_bad)))
+;
+int x509_cert_get_issuer(const uint8_t *a, size_t alen, const uint8_t **name, size_t *namelen)
+REQUIRES(alen <= (size_t)INT_MAX && RD_OK(a, alen) && WR_OK(name, sizeof(*name)) && WR_OK(namelen, sizeof(*namelen)))
+ASSIGNS(*name, *namelen, G_issuer_of, G_issuer_name, G_issuer_calls)
+ENSURES(RET == 1 || RET == -1)
+ENSURES(G_issuer_calls == OLD(G_issuer_calls) + 1 && G_issuer_of == (size_t)a)
+ENSURES(RET == 1 IMPLIES SLICE_IN(*name, *namelen, a, alen) && G_issuer_name == (size_t)*name)
+;
+int x509_certs_get_cert_by_subject(const uint8_t *d, size_t dlen, const uint8_t *subject, size_t subject_len, const uint8_t **cert, size_t *certlen)
+REQUIRES(dlen <= (size_t)INT_MAX && (dlen == 0 || RD_OK(d, dlen)) && subject_len <= (size_t)INT_MAX && RD_OK(subject, subject_len) && WR_OK(cert, sizeof(*cert)) && WR_OK(certlen, sizeof(*certlen)))
+ASSIGNS(*cert, *certlen, G_lookup_store, G_lookup_name, G_lookup_calls)
+ENSURES(RET == 1 || RET == 0 || RET == -1)
+ENSURES(G_lookup_calls == OLD(G_lookup_calls) + 1 && G_lookup_store == (size_t)d && G_lookup_name == (size_t)subject)
+/* the certificate returned is an element of the caller's store */
+ENSURES(RET == 1 IMPLIES *certlen >= 2 && SLICE_IN(*cert, *certlen, d, dlen))
+;
+int x509_cert_print(FILE *fp, int fmt, int ind, const char *label, const uint8_t *a, size_t alen)
+REQUIRES(alen <= (size_t)INT_MAX && RD_OK(a, alen))
+ASSIGNS()
+;
+
+#define CHAIN_VERIFY_REQ \
+REQUIRES(certslen <= (size_t)INT_MAX && certs != NULL && RD_OK(certs, certslen) && rootcertslen <= (size_t)INT_MAX && (rootcertslen == 0 || RD_OK(rootcerts, rootcertslen)) && depth >= 0 && depth <= 1000) \
+REQUIRES(verif_c_chk_calls == 0 && verif_c_vfy_calls == 0 && verif_c_chk_nonca == 0 && verif_c_vfy_bad == 0 && verif_c_vfy_second == 0) \
+ASSIGNS(verif_c_chk_calls, verif_c_chk_type0, verif_c_chk_type1, verif_c_chk_nonca, verif_c_plc_ci, verif_c_chk_last, verif_c_chk_first, verif_c_chk_second, \
+	verif_c_vfy_calls, verif_c_vfy_bad, verif_c_vfy_prev_parent, verif_c_vfy_second, G_lookup_store, G_lookup_name, G_lookup_calls, G_issuer_of, G_issuer_name, G_issuer_calls)
+
+/* C07, TLS form.  RET == 1 only if: the leaf was checked for the requested role; every further certificate (intermediates and
+   the anchor) was checked as a CA; there is exactly one issuer/signature verification per link, each on (previous certificate,
+   the certificate just checked), with the default signer ID; the anchor was looked up in the CALLER'S store by the issuer name
+   of the top certificate; the first intermediate has pathLen 0, every CA's pathLen (when present) and the depth limit bound the
+   number of CAs below it. */
+int x509_certs_verify(const uint8_t *certs, size_t certslen, int certs_type, const uint8_t *rootcerts, size_t rootcertslen, int depth, int *verify_result)
+CHAIN_VERIFY_REQ
+ENSURES(RET == 1 || RET == -1)
+ENSURES(RET == 1 IMPLIES (certs_type == X509_cert_chain_server && verif_c_chk_type0 == X509_cert_server_auth) || (certs_type == X509_cert_chain_client && verif_c_chk_type0 == X509_cert_client_auth))
+ENSURES(RET == 1 IMPLIES verif_c_chk_first == (size_t)certs && verif_c_chk_nonca == 0 && verif_c_vfy_bad == 0)
+ENSURES(RET == 1 IMPLIES verif_c_chk_calls >= 2 && verif_c_vfy_calls == verif_c_chk_calls - 1)
+ENSURES(RET == 1 IMPLIES G_lookup_calls == OLD(G_lookup_calls) + 1 && G_lookup_store == (size_t)rootcerts && G_lookup_name == G_issuer_name && G_issuer_calls == OLD(G_issuer_calls) + 1)
+/* path length rules at every CA position ci (1 .. chk_calls-1; the last one is the anchor) */
+ENSURES((RET == 1 && verif_c_ci >= 1 && verif_c_ci + 1 < verif_c_chk_calls) IMPLIES ((verif_c_ci != 1 || verif_c_plc_ci == 0) && (verif_c_plc_ci < 0 || (int)verif_c_ci - 1 <= verif_c_plc_ci)))
+ENSURES((RET == 1 && verif_c_ci + 1 == verif_c_chk_calls) IMPLIES (verif_c_plc_ci < 0 || (int)verif_c_chk_calls - 2 <= verif_c_plc_ci))
+ENSURES(RET == 1 IMPLIES (int)verif_c_chk_calls - 2 <= depth)
+;
+
+/* C07, TLCP form: two end-entity certificates (signature, then encryption) followed by the CA path.  Same rules; in addition the
+   roles are (auth, key-encipherment) OF THE REQUESTED SIDE, and the encryption certificate is verified under the first issuer. */
+int x509_certs_verify_tlcp(const uint8_t *certs, size_t certslen, int certs_type, const uint8_t *rootcerts, size_t rootcertslen, int depth, int *verify_result)
+CHAIN_VERIFY_REQ
+ENSURES(RET == 1 || RET == -1)
+ENSURES(RET == 1 IMPLIES (certs_type == X509_cert_chain_server && verif_c_chk_type0 == X509_cert_server_auth && verif_c_chk_type1 == X509_cert_server_key_encipher)
+	|| (certs_type == X509_cert_chain_client && verif_c_chk_type0 == X509_cert_client_auth && verif_c_chk_type1 == X509_cert_client_key_encipher))
+ENSURES(RET == 1 IMPLIES verif_c_chk_first == (size_t)certs && verif_c_chk_nonca == 0 && verif_c_vfy_bad == 0 && verif_c_vfy_second == 1)
+ENSURES(RET == 1 IMPLIES verif_c_chk_calls >= 3 && verif_c_vfy_calls == verif_c_chk_calls - 1)
+ENSURES(RET == 1 IMPLIES G_lookup_calls == OLD(G_lookup_calls) + 1 && G_lookup_store == (size_t)rootcerts && G_lookup_name == G_issuer_name && G_issuer_calls == OLD(G_issuer_calls) + 1)
+ENSURES((RET == 1 && verif_c_ci >= 2 && verif_c_ci + 1 < verif_c_chk_calls) IMPLIES ((verif_c_ci != 2 || verif_c_plc_ci == 0) && (verif_c_plc_ci < 0 || (int)verif_c_ci - 2 <= verif_c_plc_ci)))
+ENSURES((RET == 1 && verif_c_ci + 1 == verif_c_chk_calls) IMPLIES (verif_c_plc_ci < 0 || (int)verif_c_chk_calls - 3 <= verif_c_plc_ci))
+ENSURES(RET == 1 IMPLIES (int)verif_c_chk_calls - 3 <= depth)
+;
+#endif
 #endif
